@@ -11,9 +11,21 @@ run()     real python vs compiled Lean driver on the same inputs
   M  `generate_client_mock_class` (a) on the visitor's tuples, (b) inside the REAL `MocksEmitter.emit` (only the leaf
      `generate_endpoint_mock_class` is a stub): tuples, skeleton of `MockAPIClient`, default mocks, import lines, compiles
                                                                          vs  cgMockTuples / cgMock
+  A  `ClientVisitor._tag_attr_name` (F64 repaired: the name under which a tag client is exposed; a module name that collides
+     with one of the client's own members gets a trailing underscore) on the module names of all cases, the own member names
+     and their `_`-variants                                              vs  cgTagAttr
 oracle()  the properties themselves on the real visitor (no Lean): every tag of every operation is reachable as a property
           of a constructed `APIClient` and yields the tag client of its group; property names are identifiers distinct from the
           client's own names; Protocol / APIClient / MockAPIClient expose the same properties; `mock_client.py` compiles.
+          The tag client of a group is looked up under the name of the i-th `@property` of the generated `APIClient` (the i-th
+          tuple), never under a name derived here.
+          F64 (a tag named like one of APIClient's own members: request, close, transport, base_url, self) is REPAIRED: the
+          inputs are still generated (pool OWN, HAND), the classes property-shadowed-by-method,
+          property-named-like-instance-attribute, mock-client-self-argument and - for ASCII tags - tag-client-unreachable,
+          api-client-construction-fails, private-attr-collision, duplicate-property-name map to no finding any more.
+          What is left (reported as a new finding by the F64 work package, classes with the suffix `-nonascii`): two tags with
+          different keys whose module names coincide or differ by a leading underscore only through non-ASCII characters
+          (`aé`/`a`, `ké`/`_K`), and module names that CPython's NFKC normalisation of identifiers changes (`ﬁ`).
 """
 from __future__ import annotations
 
@@ -121,6 +133,7 @@ SYMBOLS = ["", "-", "_", "__", "$", " ", ".", "-_-", "a b", "a.b", "A-B"]
 POOLS = [("plain", PLAIN, 0.40), ("keyword", KEYWORDISH, 0.13), ("own", OWN, 0.17), ("digits", DIGITS, 0.08),
          ("nonascii", NONASCII, 0.12), ("symbols", SYMBOLS, 0.10)]
 FIXED_NAMES = ["request", "close", "__aenter__", "__aexit__", "__init__", "config", "transport", "_base_url"]
+OWN_MEMBERS = FIXED_NAMES + ["self"]   # what APIClient / APIClientProtocol / MockAPIClient define themselves
 
 HAND = [
     [], [[]], [[], []], [["Users", "admin-ops"], ["users"], []], [["request"]], [["close"], ["transport"]], [["config"]],
@@ -525,6 +538,10 @@ def run(seed: int, scale: float, driver: str) -> dict:
     for _ in range(max(20, int(700 * scale))):
         cases.append(_rand_case(rng))
 
+    attr_inputs: set = set(OWN_MEMBERS)
+    for m in OWN_MEMBERS:
+        attr_inputs.update([m + "_", "_" + m, m.lstrip("_"), m[1:], m.upper(), m + "s"])
+
     with _Scratch("run") as sc:
         reqs = []
         for c in cases:
@@ -575,14 +592,19 @@ def run(seed: int, scale: float, driver: str) -> dict:
             else:
                 bump("visit:syntax-error")
             mods = [t[2] for t in tuples]
-            shadow = [m for m in mods if m in FIXED_NAMES]
+            attr_inputs.update(mods)
+            # the inputs of the repaired F64: MODULE names that are (or whose `_<module>` is) a member of the client itself
+            shadow = [m for m in mods if m in FIXED_NAMES or m == "self"]
             priv = [m for m in mods if ("_" + m) in mods or ("_" + m) in FIXED_NAMES]
             if shadow:
-                bump("visit:property-named-like-client-member")
+                bump("visit:module-named-like-client-member")
             if priv:
-                bump("visit:private-attr-collision")
+                bump("visit:private-attr-of-module-name-would-collide")
             if len(set(mods)) < len(mods):
-                bump("visit:duplicate-property")
+                bump("visit:duplicate-module-name")
+            names = [p[0] for p in tx["classes"].get("APIClient", {}).get("props", [])]
+            if names != mods:
+                bump("visit:property-renamed-by-tag-attr-name")
             if len({t for ts in c for t in (ts or ["default"])}) > len(tuples):
                 bump("visit:tag-variants-share-key")
             if any(m != t[0] for m, t in zip(mods, tuples)):
@@ -625,11 +647,22 @@ def run(seed: int, scale: float, driver: str) -> dict:
             if not tuples:
                 bump(f"mock:{kind}:empty-init-body")
 
+        # ---- A: `_tag_attr_name` alone
+        from pyopenapi_gen.visit.client_visitor import ClientVisitor
+        fn = getattr(ClientVisitor, "_tag_attr_name", None)
+        ai = sorted(attr_inputs)
+        am = _drive(driver, [{"f": "cgTagAttr", "a": [m]} for m in ai])
+        for m, mo in zip(ai, am):
+            im = fn(m) if fn is not None else "<ClientVisitor has no _tag_attr_name: the module name is used as it is>"
+            check("tag-attr-name", m, mo, im)
+            bump("tag-attr:renamed" if mo != m else "tag-attr:kept")
+
     return {"comparisons": comparisons, "disagreements": disagreements, "nontrivial": len(nontrivial),
             "rule": "tag lists of 0-6 operations with 0-3 tags each, drawn from pools (plain case/punctuation variants, keyword-like, the "
                     "client's own member names, digits, non-ASCII, symbols-only) + hand-written cases; a case is non-trivial when it "
-                    "contains a tag outside the plain pool, an untagged or multi-tag operation, tag variants sharing a key, a property "
-                    "colliding with a client member / another property / a private attribute, or a text that does not compile",
+                    "contains a tag outside the plain pool, an untagged or multi-tag operation, tag variants sharing a key, a module name "
+                    "colliding with a client member / another module name / a private attribute, or a text that does not compile; "
+                    "_tag_attr_name alone on every module name met, the own member names and their variants",
             "samples": samples, "distribution": dist}
 
 
@@ -676,11 +709,31 @@ def _evaluate(tagss, root: str) -> list[dict]:
     own = [n for n in names if n in ("config", "transport", "_base_url")]
     if own:
         fail("property-named-like-instance-attribute", own, "property names differ from config/transport/_base_url")
+    # Collisions BETWEEN two tag clients.  For ASCII tags there is none (Pog.ClientGenProps.property_names_pairwise_distinct_partial,
+    # private_attr_names_distinct_from_public_partial); the ones that non-ASCII tags produce (`aé`/`a`, `ké`/`_K`) are not F64 - they
+    # get their own class ids (suffix -nonascii) and are attributed by the tags INVOLVED in the collision, not by the case.
+    nonascii_tag = [any(ord(ch) >= 128 for ch in t[0]) for t in tuples]
+    explained: set = set()          # property names whose trouble is a collision between tag clients that involves a non-ASCII tag
     if len(set(names)) != len(names):
-        fail("duplicate-property-name", sorted(n for n in set(names) if names.count(n) > 1), "pairwise distinct property names")
-    priv = [a for a in api["attrs"][3:] if a in names or a in ("config", "transport", "_base_url")]
+        dups = sorted(n for n in set(names) if names.count(n) > 1)
+        na = all(any(nonascii_tag[i] for i, n in enumerate(names) if n == d and i < len(tuples)) for d in dups) and len(names) == len(tuples)
+        if na:
+            explained.update(dups)
+        fail("duplicate-property-name" + ("-nonascii" if na else ""), dups, "pairwise distinct property names")
+    tag_attrs = api["attrs"][3:]
+    priv = [a for a in tag_attrs if a in names or a in ("config", "transport", "_base_url")]
     if priv:
-        fail("private-attr-collision", priv, "`_<module>` differs from every property and from config/transport/_base_url")
+        na = len(tag_attrs) == len(names) == len(tuples)
+        for i, a in enumerate(tag_attrs):
+            if a in ("config", "transport", "_base_url"):
+                na = False
+            elif a in names and na:
+                na = nonascii_tag[i] or any(nonascii_tag[j] for j, n in enumerate(names) if n == a)
+        if na:
+            explained.update(a for a in priv)
+            explained.update(n for i, n in enumerate(names) if tag_attrs[i] in priv)
+        fail("private-attr-collision" + ("-nonascii" if na else ""), priv,
+             "`_<attr>` differs from every property and from config/transport/_base_url")
 
     # (1, semantically) every tag of every operation reaches the tag client of its group on a constructed APIClient
     if v["compiles"]:
@@ -688,21 +741,30 @@ def _evaluate(tagss, root: str) -> list[dict]:
             ns = _exec_client(v["code"], tuples)
             client = ns["APIClient"](ns["ClientConfig"](), ns["HttpTransport"]())
             reach = {}
-            for tag, cls, mod in tuples:
+            pname_of = {}
+            # the i-th `@property` of the generated APIClient belongs to the i-th tuple; `client.<name>` in a user's source is
+            # NFKC-normalised by CPython's parser like the `def <name>` of the generated text
+            for (tag, cls, mod), pname in zip(tuples, names):
                 try:
-                    obj = getattr(client, mod)
+                    obj = getattr(client, _nfkc(pname))
                 except Exception as e:  # noqa: BLE001
                     obj = e
                 reach[_norm_key(tag)] = (type(obj).__name__, getattr(obj, "args", None), cls)
+                pname_of[_norm_key(tag)] = pname
             unreachable = []
             for k in sorted(keys):
                 got = reach.get(k)
                 if got is None or got[0] != got[2] or len(got[1]) != 2 or not isinstance(got[1][1], str):
                     unreachable.append([k, None if got is None else [got[0], got[2]]])
             if unreachable:
-                fail("tag-client-unreachable", unreachable, "client.<module> is the tag client of the group, built with (transport, base_url: str)")
+                na = all(pname_of.get(k) in explained for k, _ in unreachable)
+                fail("tag-client-unreachable" + ("-nonascii" if na else ""), unreachable,
+                     "client.<property of the group> is the tag client of the group, built with (transport, base_url: str)")
         except Exception as e:  # noqa: BLE001
-            fail("api-client-construction-fails", f"{type(e).__name__}: {e}", "APIClient(config, transport) can be constructed")
+            na = bool(explained) and not any(f["class"] in ("private-attr-collision", "property-named-like-instance-attribute",
+                                                           "property-shadowed-by-method") for f in fails)
+            fail("api-client-construction-fails" + ("-nonascii" if na else ""), f"{type(e).__name__}: {e}",
+                 "APIClient(config, transport) can be constructed")
 
     # (4) the three surfaces: Protocol vs APIClient (same call), MockAPIClient of the mocks emitter
     if [p[0] for p in proto["props"]] != names or [p[1] for p in proto["props"]] != [p[1] + "Protocol" for p in api["props"]]:
